@@ -1,7 +1,7 @@
 (* C13 — Reference values canonicalise idempotently and survive JSON and gob.
    Model: Base/Url.v (jsonreference.New = url.Parse + NormalizeURL + flags; String = URL.String). *)
 From Coq Require Import List String Ascii Bool Arith.
-From Spec Require Import Base.Json Base.Url Base.UrlFacts Base.UrlText Codec.Types Codec.Codec Codec.RefFacts.
+From Spec Require Import Base.Json Base.JsonRoundTrip Base.Url Base.UrlFacts Base.UrlText Codec.Types Codec.Codec Codec.RefFacts.
 Import ListNotations.
 Local Open Scope char_scope.
 
@@ -86,3 +86,14 @@ Example C13_example :
   | _ => False
   end.
 Proof. vm_compute. split; reflexivity. Qed.
+
+(* The text of the encoding.  A reference is written as an object with the one member `$ref` holding its canonical text; whatever
+   that text contains - quotes or backslashes in a query or an opaque part, control characters, bytes above 127 - the JSON text the
+   model writes for it is read back as that very object (Base/JsonRoundTrip.v): the string escapes are the ones a reader undoes. *)
+Theorem C13_reference_text_is_escaped_reversibly : forall s,
+  parse_json (print_json (JObj [("$ref"%string, JStr s)])) = Some (JObj [("$ref"%string, JStr s)]).
+Proof. intros s. apply parse_print_exact. cbn. tauto. Qed.
+Print Assumptions C13_reference_text_is_escaped_reversibly.
+Example C13_reference_text_example :
+  print_json (JObj [("$ref"%string, JStr "doc.json?filter=""pet""&dir=a\b#/x"%string)]) = "{""$ref"":""doc.json?filter=\""pet\""&dir=a\\b#/x""}"%string.
+Proof. vm_compute. reflexivity. Qed.
